@@ -1,8 +1,10 @@
 (* Extraction of the executable models and checkers (run outside the main build:
    cd ocaml/extracted && coqc -Q ../../coq ES ../../coq/Extract.v). *)
 From Coq Require Extraction ExtrOcamlBasic ExtrOcamlString.
-From ES Require Import Base Ssb.Param Ssb.Cfg Ssb.Equiv Ssb.Machine Lang.Ast Lang.Spec Lang.SrcSem.
+From ES Require Import Base Ssb.Param Ssb.Cfg Ssb.Equiv Ssb.Machine Lang.Ast Lang.Spec Lang.SrcSem
+  Comp.Passes Comp.Closed.
 Extraction Language OCaml.
 Extraction "extracted.ml"
   equiv_run cfg_of_ssb ssb_entries cfg_of_prog pair_entries silent_cycle observe param_eqb
+  strip finalize remove_all passes ordered closed_b
   Z.add Z.mul Z.opp Z.abs Z.div_eucl.
